@@ -67,15 +67,15 @@ fn gen_node(cst: &Cst<'_>, node_ref: NodeRef, items: &mut PrintItems) {
             match token {
                 Token::LineComment | Token::DocComment => {
                     space_before_comment(cst, &span, items, false);
-                    items.push_string(txt[..txt.len() - 1].to_string());
+                    items.extend(ir_helpers::gen_from_raw_string(&txt[..txt.len() - 1]));
                     items.push_signal(Signal::ExpectNewLine);
                 }
                 Token::BlockComment => {
                     space_before_comment(cst, &span, items, false);
-                    items.push_string(txt.to_string());
+                    items.extend(ir_helpers::gen_from_raw_string(txt));
                 }
                 Token::Whitespace => {}
-                _ => items.push_string(txt.to_string()),
+                _ => items.extend(ir_helpers::gen_from_raw_string(txt)),
             }
         }
     }
@@ -253,7 +253,7 @@ fn gen_file(cst: &Cst<'_>, node_ref: NodeRef, items: &mut PrintItems) {
                 let span = cst.span(child_node_ref);
                 let txt = cst.span_text(idx);
                 space_before_comment(cst, &span, items, true);
-                items.push_string(txt[..txt.len() - 1].to_string());
+                items.extend(ir_helpers::gen_from_raw_string(&txt[..txt.len() - 1]));
                 items.push_signal(Signal::NewLine);
                 line_start = true;
             }
@@ -261,7 +261,7 @@ fn gen_file(cst: &Cst<'_>, node_ref: NodeRef, items: &mut PrintItems) {
                 let span = cst.span(child_node_ref);
                 let txt = cst.span_text(idx);
                 space_before_comment(cst, &span, items, true);
-                items.push_string(txt.to_string());
+                items.extend(ir_helpers::gen_from_raw_string(txt));
                 items.push_signal(Signal::SpaceIfNotTrailing);
             }
             Node::Token(Token::Whitespace, idx) => {
